@@ -82,5 +82,7 @@ PROPS['C15'] = dict(
     assumptions=[],
     explanation='assert_slippage_tolerance / calc_price_drop / calc_slippage_tolerance: exact guard predicate in both directions, tolerance > 1 always an error, and lemma_c15 relates the guard to the statement\'s two inequalities; provide_liquidity passes deposits and reserves net of native deposits.',
 )
-for _p in ('C01', 'C06'):
-    PROPS[_p]['units'] = [('u_formulas.rs', 'B', None)]
+PROPS['C01']['units'] = [('u_pair.rs', 'B', None)]
+PROPS['C01']['trusted'] = PAIR_TRUST
+PROPS['C01']['min_tagged'] = 8
+PROPS['C01']['assumptions'] = [T_CHAIN, 'router entry reaches swap only through the pair entry points proved here (router contracts: C13)']
